@@ -158,7 +158,7 @@ def judge(case, ctx):
 
 
 def worker(ctx, widx, stage, stats):
-    f = core.hypothesis_search(None, ctx, _strategy(ctx), judge, ctx.pick(8, 60), ctx.seed * 1000 + widx, stats,
+    f = core.hypothesis_search(None, ctx, _strategy(ctx), judge, ctx.pick(40, 100), ctx.seed * 1000 + widx, stats,
                                time_budget=ctx.pick(90, 900))
     stats.extra["exhaustive_k"] = bool(ctx.thorough)
     return [f] if f else []
